@@ -12,6 +12,11 @@ CHECKS = {
         text="Every generated arithmetic recipe is evaluated independently with mpmath (principal branches) at three generic complex points and compared with the value of the tree the library returned; exact trees to 1e-25, float-containing trees to a forward-error-scaled double tolerance. Exploration only.",
         note="Trusts mpmath, the raw dump, and the stated domain guards (non-literal bases on the negative axis, |value| outside 1e+-300 (1e+-100 with floats) are skipped and counted).",
         variants=["main"]),
+    "C06": dict(
+        engine="hy", technique="property-based testing: exhaustive ordered-pair table over representatives of every number kind x 10 operations + Hypothesis values, judged by a decision table written from the statement (commutativity, nan absorption, oo rules, exactness)",
+        text="All 1521 ordered pairs of 39 representative numbers of every kind, for add/sub/mul/div/pow as free functions and as Number methods, are enumerated exhaustively and judged against the extended-number rules of the statement; random values per kind extend the table. Exhaustive over the table, exploration beyond.",
+        note="Rules are only those the statement names; conventions outside it (x**0, 1**x, complex factor times oo, float zero times oo) are not judged. Exact 0 times a float returning exact 0 is the library's documented exception.",
+        variants=["main"]),
 }
 
 NOT_APPLICABLE = {}
